@@ -1,3 +1,4 @@
+import re
 """C10 — Modules load once, compile after their imports, and import cycles are errors (structure of module::load)."""
 from facts import callee_of, hir_walk, callee_def
 import pathrules as P
@@ -43,9 +44,8 @@ def r1_once(c, facts):
     for _ in range(4):
         sw = fn.mir['blocks'][cur]['term']
         if sw['t'] == 'switch':
-            st = [b for v, b in sw['targets'] if v == '1']
-            some_t = st[0] if st else None
-            none_t = sw['otherwise'] if st else None
+            ee = P.enum_edges(sw)
+            some_t, none_t = ee.get('1'), ee.get('0')
             break
         if sw['t'] in ('goto',):
             cur = sw['target']
@@ -173,7 +173,7 @@ def r4_invalid(c, facts):
     if sw['t'] != 'switch':
         c.bad(R, 'is_valid-result-unused', 'the result of is_valid is not branched on')
         return
-    f_t = [x for v, x in sw['targets'] if v == '0']
+    f_t = [P.enum_edges(sw)['0']] if '0' in P.enum_edges(sw) else []
     t_t = sw['otherwise']
     if not f_t:
         c.skip(R, 'is_valid switch', 'unexpected switch shape')
@@ -262,8 +262,15 @@ NARROW = {'take', 'take_while', 'skip', 'skip_while', 'step_by', 'nth', 'last', 
 def accessor_complete(c, facts, R, qname, what):
     """Program::<accessor> yields every child of that kind: children().filter_map(K::cast), nothing narrower"""
     fn = c.anchor(R, qname)
-    names = [P.strip(callee_of(t)['def']).split('::')[-1] for b, t in fn.calls() if callee_of(t)]
-    cnames = [P.strip(callee_of(t)['def']).split('::')[-1] for f2 in facts.closures_of(fn) for b, t in f2.calls() if callee_of(t)]
+    fam = [fn]
+    # one level of same-crate helpers (e.g. a generic `children_of::<N>(node)`), with their closures
+    for b, t in fn.calls():
+        cal = callee_of(t)
+        h = facts.fns.get(cal.get('resolved_id') or cal.get('id')) if cal else None
+        if h is not None and h.mir and h.crate == fn.crate and h.qname.split('::')[-1] not in ('node', 'children', 'cast') and h not in fam:
+            fam.append(h)
+    names = [P.strip(callee_of(t)['def']).split('::')[-1] for f1 in fam for b, t in f1.calls() if callee_of(t)]
+    cnames = [P.strip(callee_of(t)['def']).split('::')[-1] for f1 in fam for f2 in facts.closures_of(f1) for b, t in f2.calls() if callee_of(t)]
     bad = sorted((set(names) & NARROW) - {'filter'})
     if 'filter' in names and not set(cnames) <= {'cast', 'is_some', 'clone', 'syntax', 'kind', 'trunk', 'eq'}:
         bad.append('filter')
@@ -308,7 +315,7 @@ def r6_complete(c, facts):
                 break
             cur = sw.get('target', cur)
         if sw['t'] == 'switch':
-            st = [x for v, x in sw['targets'] if v == '1']
+            st = [P.enum_edges(sw)['1']] if '1' in P.enum_edges(sw) else []
             if st:
                 region = fn.reachable_from(st[0], avoid=[gb])
                 errs = [b for b in region if b in P.err_blocks(fn)]
@@ -320,7 +327,44 @@ def r6_complete(c, facts):
                     c.ok(R, {'already loaded import': 'only adds an edge'})
 
 
+def r7_locators(c, facts):
+    """what `use "x"` names: Locator::join is url::Url::join (RFC 3986 resolution incl. `..`), and an import is valid
+    exactly when the front end's file system (or the single playground input) says so at the time of loading"""
+    R = c.rule('C10.R7', 'LOCATORS: an import is resolved by Url::join and accepted only on the file system\'s (or the fixed input\'s) verdict')
+    jn = c.anchor(R, 'oal_model::locator::Locator::join')
+    names = [P.strip(callee_of(t)['def']) for b, t in jn.calls() if callee_of(t)]
+    url_join = [n for n in names if n.endswith('Url::join')]
+    other_url = sorted({n.split('::')[-1] for n in names if n.startswith('url::') and not n.endswith('Url::join')})
+    if url_join and not other_url:
+        c.ok(R, {'Locator::join': 'delegates to url::Url::join'})
+    else:
+        c.bad(R, 'join-not-url-join:%s' % ','.join(other_url), 'Locator::join no longer resolves the relative reference with url::Url::join (uses %s): `..`, `.` or absolute references resolve to a different file than before, so existing imports are rejected or two spellings of one file become two modules' % (other_url or names))
+    n = 0
+    for q, l in sorted(facts.by_qname.items()):
+        if not re.search(r'as (oal_compiler::)?module::Loader<.*>::is_valid$', q):
+            continue
+        fn = l[0]
+        n += 1
+        lname = (re.search(r'(\w+Loader)', q) or re.search(r'<([\w:]+)', q)).group(1)
+        idx = MF.defs_index(fn)
+        sl = MF.slice_back(fn, 0, idx)
+        calls = sorted({P.strip(x).split('::')[-1] for x, _, _ in sl['calls']} - {'url', 'as_str', 'deref', 'as_ref', 'eq'})
+        consts = [k for k in sl['consts'] if k.get('ty') == 'bool']
+        fs = [x for x, _, _ in sl['calls'] if P.strip(x).endswith('FileSystem::is_valid') or P.strip(x).endswith('DefaultFileSystem::is_valid')]
+        inst = {'loader': q, 'verdict_from': calls}
+        if consts:
+            c.bad(R, '%s::is_valid:verdict-constant-on-some-path' % lname, '%s returns a constant on some path instead of asking the file system' % q, **inst)
+        elif fs and calls == ['is_valid']:
+            c.ok(R, inst)
+        elif not fs and not calls:
+            c.ok(R, dict(inst, note='compares the locator with the fixed input'))
+        else:
+            c.bad(R, '%s::is_valid:verdict-from:%s' % (lname, ','.join(calls)), '%s decides from %s: an import can be accepted although the file is gone (or rejected although it exists)' % (q, calls), **inst)
+    c.floor(R, 'Loader::is_valid implementations', n, 3)
+
+
 def run(c, facts):
+    c.run(r7_locators, facts)
     c.run(r6_complete, facts)
     c.run(r1_once, facts)
     c.run(r2_edge_agree, facts)
